@@ -6,6 +6,8 @@
 (*                       rs = Set(R))   -- ks is declared BEFORE rs        *)
 (*                  K(id, p = Required(P), w = Optional(int))              *)
 (*                                           deleted with its parent       *)
+(*                  C(id, k = Required(K))   K.cs = Set(C, cascade_delete) *)
+(*                                           a second level below K[1]     *)
 (*                  R(id, p = Required(P))   no cascade: refuses the delete*)
 (* P[1].delete() first cascades over ks (deleting the K objects, cancelling*)
 (* the ones created in this session) and only then meets rs; if an R       *)
@@ -18,9 +20,10 @@
 (***************************************************************************)
 EXTENDS Integers, FiniteSets, TLC
 
-CONSTANTS KIds, RIds, MaxLevel
+CONSTANTS KIds, RIds, MaxLevel,
+          CIds        \* grandchildren: every C belongs to K[1]
 
-VARIABLES db, cur,     \* [p |-> BOOLEAN, K |-> SUBSET KIds, R |-> SUBSET RIds, W |-> SUBSET KIds]   (all children belong to P[1])
+VARIABLES db, cur,     \* [p |-> BOOLEAN, K |-> SUBSET KIds, R |-> SUBSET RIds, W |-> SUBSET KIds, C |-> SUBSET CIds]   (all children belong to P[1])
           new,         \* K/R objects created by the session, not flushed: <<e, k>>
           dead,        \* objects deleted by the session: their keys are not reused in this model (a deleted object may
                        \* keep its key until the next flush, which can happen implicitly before any query)
@@ -29,9 +32,10 @@ VARIABLES db, cur,     \* [p |-> BOOLEAN, K |-> SUBSET KIds, R |-> SUBSET RIds, 
 vars == <<db, cur, new, dead, sess, ev>>
 Ev(op, e, k, out, ret) == [op |-> op, e |-> e, k |-> k, out |-> out, ret |-> ret]
 
-Seeds == {[p |-> TRUE, K |-> {}, R |-> {}, W |-> {}], [p |-> TRUE, K |-> {1}, R |-> {}, W |-> {}],
-          [p |-> TRUE, K |-> {1}, R |-> {1}, W |-> {}], [p |-> TRUE, K |-> {}, R |-> {1}, W |-> {}],
-          [p |-> TRUE, K |-> {1}, R |-> {1}, W |-> {1}]}
+Seeds == {[p |-> TRUE, K |-> {}, R |-> {}, W |-> {}, C |-> {}], [p |-> TRUE, K |-> {1}, R |-> {}, W |-> {}, C |-> {}],
+          [p |-> TRUE, K |-> {1}, R |-> {1}, W |-> {}, C |-> {}], [p |-> TRUE, K |-> {}, R |-> {1}, W |-> {}, C |-> {}],
+          [p |-> TRUE, K |-> {1}, R |-> {1}, W |-> {1}, C |-> {}],
+          [p |-> TRUE, K |-> {1}, R |-> {1}, W |-> {}, C |-> CIds], [p |-> TRUE, K |-> {1}, R |-> {}, W |-> {}, C |-> CIds]}
 
 Init == db \in Seeds /\ cur = db /\ new = {} /\ dead = {} /\ sess = "none" /\ ev = Ev("Init", "-", 0, "ok", {})
 
@@ -47,8 +51,17 @@ DeleteR(k) == /\ sess = "open" /\ k \in cur.R
               /\ cur' = [cur EXCEPT !.R = @ \ {k}] /\ new' = new \ {<<"R", k>>} /\ dead' = dead \cup {<<"R", k>>}
               /\ ev' = Ev("Delete", "R", k, "ok", {}) /\ UNCHANGED <<db, sess>>
 DeleteK(k) == /\ sess = "open" /\ k \in cur.K
-              /\ cur' = [cur EXCEPT !.K = @ \ {k}, !.W = @ \ {k}] /\ new' = new \ {<<"K", k>>} /\ dead' = dead \cup {<<"K", k>>}
+              /\ cur' = [cur EXCEPT !.K = @ \ {k}, !.W = @ \ {k}, !.C = IF k = 1 THEN {} ELSE @]
+              /\ new' = (new \ {<<"K", k>>}) \ (IF k = 1 THEN {<<"C", c>> : c \in CIds} ELSE {})
+              /\ dead' = dead \cup {<<"K", k>>} \cup (IF k = 1 THEN {<<"C", c>> : c \in cur.C} ELSE {})
               /\ ev' = Ev("Delete", "K", k, "ok", {}) /\ UNCHANGED <<db, sess>>
+
+CreateC(c) == /\ sess = "open" /\ 1 \in cur.K /\ c \notin cur.C /\ <<"C", c>> \notin dead
+              /\ cur' = [cur EXCEPT !.C = @ \cup {c}] /\ new' = new \cup {<<"C", c>>}
+              /\ ev' = Ev("Create", "C", c, "ok", {}) /\ UNCHANGED <<db, dead, sess>>
+DeleteC(c) == /\ sess = "open" /\ c \in cur.C
+              /\ cur' = [cur EXCEPT !.C = @ \ {c}] /\ new' = new \ {<<"C", c>>} /\ dead' = dead \cup {<<"C", c>>}
+              /\ ev' = Ev("Delete", "C", c, "ok", {}) /\ UNCHANGED <<db, sess>>
 
 (* K[k].w = 1 / None: a plain modification of a child (queued for UPDATE unless the object is new) *)
 SetW(k) == /\ sess = "open" /\ k \in cur.K
@@ -59,12 +72,13 @@ SetW(k) == /\ sess = "open" /\ k \in cur.K
 DeleteP == /\ sess = "open" /\ cur.p
            /\ IF cur.R # {}
               THEN ev' = Ev("Delete", "P", 1, "ConstraintError", {}) /\ UNCHANGED <<db, cur, new, dead, sess>>     \* C13: nothing changes
-              ELSE /\ cur' = [p |-> FALSE, K |-> {}, R |-> {}, W |-> {}] /\ new' = {} /\ dead' = dead \cup {<<"K", k>> : k \in cur.K}
+              ELSE /\ cur' = [p |-> FALSE, K |-> {}, R |-> {}, W |-> {}, C |-> {}] /\ new' = {}
+                   /\ dead' = dead \cup {<<"K", k>> : k \in cur.K} \cup {<<"C", c>> : c \in cur.C}
                    /\ ev' = Ev("Delete", "P", 1, "ok", {}) /\ UNCHANGED <<db, sess>>
 
 (* what the program can observe (asked by the replay in every state): which objects exist, P[1].ks, P[1].rs *)
 Look == /\ sess = "open"
-        /\ ev' = Ev("Look", "-", 0, "ok", {<<"K", k>> : k \in cur.K} \cup {<<"R", k>> : k \in cur.R} \cup {<<"W", k>> : k \in cur.W}
+        /\ ev' = Ev("Look", "-", 0, "ok", {<<"K", k>> : k \in cur.K} \cup {<<"R", k>> : k \in cur.R} \cup {<<"W", k>> : k \in cur.W} \cup {<<"C", c>> : c \in cur.C}
                                           \cup (IF cur.p THEN {<<"P", 1>>} ELSE {}))
         /\ UNCHANGED <<db, cur, new, dead, sess>>
 
@@ -74,9 +88,11 @@ EndExc == sess = "open" /\ sess' = "none" /\ new' = {} /\ dead' = {} /\ ev' = Ev
 Next == \/ Begin \/ End \/ EndExc \/ DeleteP \/ Look
         \/ \E k \in KIds : CreateK(k) \/ DeleteK(k) \/ SetW(k)
         \/ \E k \in RIds : CreateR(k) \/ DeleteR(k)
+        \/ \E c \in CIds : CreateC(c) \/ DeleteC(c)
 
 Bounded == TLCGet("level") <= MaxLevel
 NoOrphans == (~db.p => db.K = {} /\ db.R = {}) /\ db.W \subseteq db.K /\ cur.W \subseteq cur.K
+             /\ (1 \notin db.K => db.C = {}) /\ (1 \notin cur.K => cur.C = {})
 StepProps == /\ Assert(ev'.out # "ok" => (db' = db /\ cur' = cur /\ new' = new /\ dead' = dead /\ sess' = sess), "a refused delete changed the session")
              /\ Assert(db' # db => (ev'.op = "End" /\ db' = cur), "database changed outside a commit")
 =============================================================================
